@@ -25,7 +25,7 @@ P = {
             "wildcards, q-values, malformed) x error tree of depth <= 6, fan-out <= 4 built from real values (8 heimdall sentinels, "
             "other sentinels, *RedirectError, a real *cellib.EvalError, four foreign leaf types, fmt.Errorf %w / custom Unwrap, "
             "errors.Join / multi-%w / custom Unwrap() []error, errorchain.ErrorChain with and without (adversarial) context) x "
-            "scenario (error returned by the executor | handled by a REAL default/redirect/www_authenticate mechanism | panic with "
+            "scenario (error returned by the executor | handled by a REAL default/redirect (fixed or request-dependent target rendering nothing / blanks / a URL)/www_authenticate mechanism | panic with "
             "error or string value); observed: errors.Is for 10 targets, errors.As, both real translators, the three real service "
             "stacks, what the mechanism hands to ctx.AddHeaderForUpstream; non-trivial = the tree mixes >= 2 leaf kinds below a wrapper, or the scenario is not a plain error; "
             "distinct by hash of the generated input",
